@@ -245,6 +245,8 @@ impl CL03CommitmentPublicKey {
             }
 
             let N = p.clone() * q.clone();
+            #[cfg(feature = "verif_hooks")]
+            verif_hooks::LAST_OWN_MODULUS_FACTORS.with(|f| *f.borrow_mut() = Some((p.clone(), q.clone())));
             N
         });
 
@@ -275,5 +277,23 @@ impl CL03CommitmentPublicKey {
             h: h,
             g_bases: g_bases,
         }
+    }
+}
+
+/// Verification instrumentation (cargo feature `verif_hooks`, off by default): keeps the factors of a commitment
+/// key's self-generated modulus, which are otherwise dropped, so that an external checker can test `N = p * q`
+/// with safe primes. Thread-local, written only; no library code reads it.
+#[cfg(feature = "verif_hooks")]
+pub mod verif_hooks {
+    use rug::Integer;
+    use std::cell::RefCell;
+
+    thread_local! {
+        pub static LAST_OWN_MODULUS_FACTORS: RefCell<Option<(Integer, Integer)>> = RefCell::new(None);
+    }
+
+    /// Takes (and clears) the factors recorded by the last `CL03CommitmentPublicKey::generate(None, ..)` on this thread.
+    pub fn take_own_modulus_factors() -> Option<(Integer, Integer)> {
+        LAST_OWN_MODULUS_FACTORS.with(|f| f.borrow_mut().take())
     }
 }
